@@ -536,7 +536,7 @@ impl Compiler {
                 self.compile_filter_statement(f)?;
             }
             Statement::Invalid => {
-                panic!("Invalid statement encountered");
+                return Err(CompileError::new("invalid statement", 0));
             }
         }
         Ok(())
